@@ -203,6 +203,52 @@ def registration(ctx, qt, legacy, current, units_of_type):
     return out
 
 
+def second_database(ctx, subs):
+    """After the shipped database resolved every legacy spelling, a *second* database that defines the same symbols
+    with other factors (or not at all): there, too, the legacy spelling must mean exactly what the current one means
+    there - nothing learnt about a spelling in one database may leak into another."""
+    import numpy as np
+    from barril.units import Array, Scalar, UnitDatabase
+
+    db2 = UnitDatabase()
+    cur_units = sorted({cur for _leg, cur in subs})
+    with table.pushed(db2):
+        db2.AddUnitBase("volume", "cubic metre", "m3")
+        db2.AddUnitBase("force per velocity", "newton second per metre", "kg/s")
+        db2.AddUnitBase("amount of substance", "mole", "mol")
+        fac = {"Mcf": 7.0, "Mm3": 3.0, "MMcf": 11.0, "MMm3": 13.0, "N.s/m": 5.0, "lbmol": 17.0, "gmol": 19.0}
+        qt_of = {"Mcf": "volume", "Mm3": "volume", "MMcf": "volume", "MMm3": "volume", "N.s/m": "force per velocity", "lbmol": "amount of substance", "gmol": "amount of substance"}
+        for cur in cur_units:
+            if cur in fac and cur != "MMm3":  # one symbol is left out on purpose: both spellings must fail alike
+                db2.AddUnit(qt_of[cur], cur, cur, "%%f / %r" % fac[cur], "%%f * %r" % fac[cur])
+        for qt in ("volume", "force per velocity", "amount of substance"):
+            db2.AddCategory(qt, qt)
+        base = {"volume": "m3", "force per velocity": "kg/s", "amount of substance": "mol"}
+        for leg, cur in subs:
+            qt = qt_of.get(cur)
+            if qt is None:
+                continue
+            b = base[qt]
+            for name, fn in (
+                ("db2.Convert(qt,u,base,x)", lambda u: db2.Convert(qt, u, b, 2.0)), ("db2.Convert(qt,base,u,list)", lambda u: db2.Convert(qt, b, u, [2.0, 4.0])),
+                ("db2.Convert(qt,u,base,ndarray)", lambda u: db2.Convert(qt, u, b, np.array([2.0, 4.0]))), ("Scalar(x,u).GetValue(base)", lambda u: Scalar(2.0, u).GetValue(b)),
+                ("Scalar(x,base).GetValue(u)", lambda u: Scalar(2.0, b).GetValue(u)), ("Array.GetValues(u)", lambda u: Array(qt, [2.0, 4.0], b).GetValues(u)),
+                ("Scalar.CreateCopy(unit=u)", lambda u: Scalar(qt, 2.0, b).CreateCopy(unit=u)), ("db2.GetDefaultCategory(u)", lambda u: db2.GetDefaultCategory(u)),
+            ):  # fmt: skip
+                ctx.ev()
+                ctx.nt(("second database", leg, name))
+                ol, oc = outcome(lambda: fn(leg)), outcome(lambda: fn(cur))
+                if cur not in fac or cur == "MMm3":
+                    # the symbol is not a unit of this database: the property speaks of table units only, so how the
+                    # two spellings fail is not compared (GetDefaultCategory: None for one, KeyError for the other) -
+                    # only that neither spelling yields something where the other yields nothing
+                    ol, oc = [("nothing",) if (o[0] != "ok" or o[1] is None) else o for o in (ol, oc)]
+                if ol != oc:
+                    ctx.violation("second-database:legacy-differs-from-current:%s" % name, {"legacy": leg, "current": cur, "entry": name, "with_legacy": ol, "with_current": oc})
+                elif oc[0] == "ok":
+                    ctx.count("second database: pairs agreeing on a value")
+
+
 def run(ctx):
     from barril.units import ObtainQuantity, Quantity, UnitDatabase
     from barril.units import unit_database as ud
@@ -286,6 +332,7 @@ def run(ctx):
                 else:
                     ctx.count("registration pairs agreeing on an exception")
         if ctx.shard == 0:
+            second_database(ctx, subs)
             ctx.sample({"spellings": sorted(spell.items())[:12]})
             ctx.sample({"entry forms": [n for n, _f in entries(db, "length", "length", "m", "cm")]})
     ctx.inconclusive_if(len(spell) < 20, "fewer than 20 legacy spellings derived (substitution list empty or table not loaded)")
